@@ -208,7 +208,7 @@ CHECKS['C15'] = dict(
    technique='TLA+ function spec (ItemBuffer) with transition-complete replay on the real class + protocol model (Limiter) checked by TLC + TLC trace validation of recorded executions of real flow-graph nodes against FlowAbs / BufAbs',
    design='4 (C15)')
 CHECKS['C17'] = dict(
-   text='TLC checks SizeClass (transcription of getSmallObjectIndex / getIndexOrObjectSize) for every request size 1..8128: object size >= request, bins and sizes monotone, one '
+   text='TLC model-checks LifoList (the orphaned-slab list: push on thread exit, pop = adoption, grab = clean-up command; lock flag and top at access granularity; 2-3 threads, 2-3 slabs: every slab is in the list or held by exactly one thread) and replays EVERY edge on the real rml::internal::LifoList with real slab headers (top and the lock flag compared per step; Take / Give / End events validated by TLC against TraceLifo). TLC checks SizeClass (transcription of getSmallObjectIndex / getIndexOrObjectSize) for every request size 1..8128: object size >= request, bins and sizes monotone, one '
         'size per bin, 8-byte alignment for requests <= 8 bytes and 16-byte alignment beyond, bin index in range; and model-checks SlabBlock (one slab with 3 objects: owner malloc / '
         'free, 1-2 foreign threads freeing through the public free list CAS, first freer links the slab into the owner\'s mailbox under mailLock, owner privatises by exchange, thread '
         'exit -> shareOrphaned with the UNUSABLE marker and the wait for an in-flight freer, adoption by a foreign thread) at shared-access granularity: an object is never in two of '
@@ -219,7 +219,7 @@ CHECKS['C17'] = dict(
         'are validated by TLC against the size-class properties and HeapAbs (returned block overlaps no live block, alignment, msize, calloc zero, realloc prefix, fill pattern intact, '
         'reuse only after the free call began).',
    note='API sequences and schedules sampled; the SlabBlock model is bound to the code through the abstract histories only (no step replay); metadata overlap is visible only through fill patterns; addresses are compared as order-preserving ranks',
-   technique='TLA+ function specification + PlusCal protocol model checked by TLC + TLC trace validation of recorded executions of the real allocator against HeapAbs',
+   technique='LifoList protocol model replayed edge-complete on the real list + TLA+ function specification + PlusCal protocol model checked by TLC + TLC trace validation of recorded executions of the real allocator against HeapAbs',
    design='4 (C17)')
 CHECKS['C18'] = dict(
    text='PoolAbs specifies, over rank-compressed addresses: every pool block lies inside a region obtained from that pool\'s own raw allocator and overlaps no live block of the pool, '
